@@ -1225,9 +1225,15 @@ def run(ctx):
                'driver-side assignments only to the primary side of a layout; deactivate_control() called directly and '
                'update_target() by a non-controlling module are not issued (outside documented use)',
                'the poller is not running (start=False): reads happen only where the history issues them')
+    if not only or 'conc' in only:
+        from vf.harness import c18conc
+        c18conc.run_conc(ctx)       # two threads updating linked parameters at once (schedx)
 
 
 def replay(case):
+    if case.get('kind') == 'conc':
+        from vf.harness import c18conc
+        return c18conc.replay_conc(case)
     part = core.Part()
     model = get_model(case['spec'])
     part.evaluations += 1
